@@ -98,6 +98,20 @@ class _BipGroup:
         yield "ensures.acct.prv_slip132", eq(keys.get("prv"), spec_xkey(slip132_version(True, bipidx, m.testnet), depth3, fp2,
                                                                       I.account + HARD, cc3, Rope.of(b"\x00") + seg(k3, 32)))
         rows = v[1]
+        if isinstance(rows, Ref) and isinstance(c.deref(rows), HList) and isinstance(I.a, int):
+            items = c.deref(rows).items
+            yield "ensures.rows.count", len(items) == max(0, I.b - I.a)
+            for off, row in enumerate(items[:5]):
+                j = I.a + off
+                badj, kj, ccj, _ = spec_derive_prv(kc, ccc, [j])
+                r = c.deref(row).items
+                ptj = U.ecmul(kj)
+                yield "ensures.row.four_columns", len(r) == 4
+                yield "ensures.row.path", r[0] == f"m/{purpose}'/{int(bool(m.testnet))}'/{I.account}'/0/{j}"
+                yield "ensures.row.address", eq(r[1], spec_address(kind, ptj, m.testnet))
+                yield "ensures.row.sec_hex", r[2] == as_rope(serP(ptj)).native().hex()
+                yield "ensures.row.wif", eq(r[3], SUM.b58chk(spec_wif_payload(kj, True, m.testnet)))
+            return
         if isinstance(rows, Ref) and isinstance(c.deref(rows), HList):
             yield "ensures.rows.empty_only_for_empty_interval", land(len(c.deref(rows).items) == 0, I.a >= I.b)
             return
@@ -236,6 +250,8 @@ class Generate:
             E.SUMMARIES.update(saved)
 
     def inputs(self, B):
+        if B.concrete:
+            raise Undecided("generate() over tagged callees has no concrete replay (covered by the C20 process-level harness)")
         w, wn = sym_wallet(B, private=True)
         account = B.int("account", 0, HARD)
         a, b = B.int("start", 0, HARD + 1), B.int("end", 0, HARD + 1)
@@ -301,6 +317,8 @@ class JsonRender:
             E.SUMMARIES.update(saved)
 
     def inputs(self, B):
+        if B.concrete:
+            raise Undecided("json() over tagged data has no concrete replay")
         w, wn = sym_wallet(B, private=True)
         kind = B.case("data", 3)
         data = [None, B.ctx.alloc(HDict({})), B.ctx.alloc(HDict({"BIP44": Tagged("x")}))][kind]
@@ -339,6 +357,15 @@ class WasabiJson:
         m = I.w.master
         bad, k, cc, lv = spec_derive_prv(m.k, m.cc, [84 + HARD, 0 + HARD, 0 + HARD])
         yield "raises.only_if_invalid_child", implies(out.raised, bad)
+        if out.returned and isinstance(out.value, str):
+            import json as _json
+            d = _json.loads(out.value)
+            fp2 = fingerprint_of_point(U.ecmul(lv[1][0]))
+            ver = 0x043587CF if m.testnet else 0x0488B21E
+            yield "ensures.ExtPubKey", d.get("ExtPubKey") == spec_xkey(ver, m.depth + 3, fp2, HARD, cc, serP(U.ecmul(k)))
+            yield "ensures.MasterFingerprint", d.get("MasterFingerprint") == as_rope(fingerprint_of_point(U.ecmul(m.k))).native().hex().upper()
+            yield "ensures.keys", set(d) == {"ExtPubKey", "MasterFingerprint", "ColdCardFirmwareVersion"}
+            return
         if out.returned:
             v = out.value
             ok = isinstance(v, ModelObj) and v.kind == "json" and isinstance(v.f["data"], Ref)
